@@ -1285,10 +1285,17 @@ def site_rewrite(ctx, sf, it, rule, anchor, nth, ropts, what):
         # `for V in VEC { body }` (VEC a local Vec of Copy elements, consumed by the loop) ->
         # `{ let V__v = VEC; let mut V__c: usize = 0; while V__c < V__v.len() { let V = V__v[V__c]; V__c += 1; body } }`
         k = a
-        if toks[k].text != "for" or toks[k + 2].text != "in" or toks[k + 3].kind != "id" or toks[k + 4].text != "{":
+        if toks[k].text != "for" or toks[k + 2].text != "in":
             raise LostAnchor(f"{what}: N16 anchor must be `for V in VEC {{`")
-        var, vec = toks[k + 1].text, toks[k + 3].text
-        body_open, body_close = k + 4, pair[k + 4]
+        j = k + 3
+        while toks[j].text != "{":
+            j = pair[j] + 1 if toks[j].text in ("(", "[") else j + 1
+        var = toks[k + 1].text
+        vec = sf.text[toks[k + 3].start:toks[j - 1].end]
+        if ropts.get("src"):
+            # the iterated expression is an opaque call (O1): `src=` names the stub call that yields the Vec
+            vec = ropts["src"].replace("~", " ")
+        body_open, body_close = j, pair[j]
         head = f"{{ let {var}__v = {vec}; let mut {var}__c: usize = 0; while {var}__c < {var}__v.len() "
         first = f" let {var} = {var}__v[{var}__c]; {var}__c += 1;"
         edits += [Edit(toks[k].start, toks[body_open].start, head),
@@ -1312,7 +1319,8 @@ def site_rewrite(ctx, sf, it, rule, anchor, nth, ropts, what):
         if any(toks[m].text == "continue" for m in range(body_open, body_close)):
             raise UnitSyntaxError("N15: body with `continue` not supported")
         E = sf.text[toks[k + 3].start:toks[body_open - 5].end]
-        head = f"{{ let {var}__v = vx_chars({E}); let mut {var}__c: usize = 0; while {var}__c < {var}__v.len() "
+        callee = "vx_chars_ref(&" + E + ")" if ropts.get("by_ref") else "vx_chars(" + E + ")"
+        head = f"{{ let {var}__v = {callee}; let mut {var}__c: usize = 0; while {var}__c < {var}__v.len() "
         first = f" let {var} = {var}__v[{var}__c]; {var}__c += 1;"
         edits += [Edit(toks[k].start, toks[body_open].start, head),
                   Edit(toks[body_open].end, toks[body_open].end, first, prio=-1),
